@@ -185,9 +185,9 @@ theorem boundary_rejects_iff (cur bc : List (String × String)) :
 
 /-- FULL STATEMENT (a rejected call leaves the stored conditions untouched):
     `(setBoundaryConditions cur bc).1.isError → (setBoundaryConditions cur bc).2 = cur`.
-Proved only for a source that validates before it stores; the pinned tree assigns the defaults first
-(`bcStoresBeforeValidation = true`, known finding `boundary-partial-update`, witness below). -/
-theorem rejected_boundary_call_changes_nothing_partial (cur bc : List (String × String))
+Lemma for a source that validates before it stores (the tree before repository fix 8924ce6 assigned the
+defaults first: `bcStoresBeforeValidation = true`, witness below); the full theorem follows it. -/
+theorem rejected_boundary_call_changes_nothing_of_source (cur bc : List (String × String))
     (hsrc : bcStoresBeforeValidation = false) (h : (setBoundaryConditions cur bc).1.isError = true) :
     (setBoundaryConditions cur bc).2 = cur := by
   unfold setBoundaryConditions at h ⊢
@@ -197,6 +197,14 @@ theorem rejected_boundary_call_changes_nothing_partial (cur bc : List (String ×
     cases r with
     | ok u => cases u; simp [Res.isError] at h
     | error e => simp [hsrc]
+
+/-- the source validates the whole input before it stores anything (repository fix 8924ce6) … -/
+theorem boundary_source_validates_first : bcStoresBeforeValidation = false := by decide +kernel
+
+/-- … hence a rejected `set_boundary_conditions` call leaves the stored conditions untouched -/
+theorem rejected_boundary_call_changes_nothing (cur bc : List (String × String))
+    (h : (setBoundaryConditions cur bc).1.isError = true) : (setBoundaryConditions cur bc).2 = cur :=
+  rejected_boundary_call_changes_nothing_of_source cur bc boundary_source_validates_first h
 
 /-- witness of the finding on a source that stores first: y is reset by a rejected call about x -/
 example : bcStoresBeforeValidation = true →
@@ -259,10 +267,10 @@ theorem env_beyond_list_rejected (nspecies nenv : Nat) (cellEnv : List Int) (hs 
 
 /-- FULL STATEMENT (building a system whose space names an environment beyond the list raises):
     `(∃ e ∈ cellEnv, nenv ≤ e) → systemEnvCheck stateGiven chemGiven nspecies nenv cellEnv = error`.
-Proved when a default state or chemostat map is generated, or when the `space` setter compares the indices
-with the number of environments; on the pinned tree a system given explicit `state` and `chemostats` never looks at
-the environment map (known finding `env-beyond-list-explicit-state`, witness below). -/
-theorem env_beyond_list_system_rejected_partial (stateGiven chemGiven : Bool) (nspecies nenv : Nat) (cellEnv : List Int)
+Lemma: holds when a default state or chemostat map is generated, or when the `space` setter compares the indices
+with the number of environments (before repository fix 445be23 a system given explicit `state` and `chemostats`
+never looked at the environment map, witness below); the full theorem follows it. -/
+theorem env_beyond_list_system_rejected_of_source (stateGiven chemGiven : Bool) (nspecies nenv : Nat) (cellEnv : List Int)
     (hs : 0 < nspecies) (h : ∃ e ∈ cellEnv, (nenv : Int) ≤ e)
     (hsrc : systemSpaceChecksEnv = true ∨ ¬(stateGiven = true ∧ chemGiven = true)) :
     systemEnvCheck stateGiven chemGiven nspecies nenv cellEnv = .error .outOfRange := by
@@ -280,6 +288,19 @@ theorem env_beyond_list_system_rejected_partial (stateGiven chemGiven : Bool) (n
       cases stateGiven <;> cases chemGiven <;> simp_all
     simp [hflag, this, env_beyond_list_rejected nspecies nenv cellEnv hs h]
 
+/-- the `RDSystem.space` setter compares every cell's environment index with the number of environments
+(repository fix 445be23) … -/
+theorem system_source_checks_env :
+    systemSpaceChecksEnv = true ∧ systemSpaceEnvTests = ["int(e)>=self.network.nenvironments()"] := by decide +kernel
+
+/-- … hence a system whose space names an environment beyond the list is refused, with or without explicit
+state and chemostat map -/
+theorem env_beyond_list_system_rejected (stateGiven chemGiven : Bool) (nspecies nenv : Nat) (cellEnv : List Int)
+    (hs : 0 < nspecies) (h : ∃ e ∈ cellEnv, (nenv : Int) ≤ e) :
+    systemEnvCheck stateGiven chemGiven nspecies nenv cellEnv = .error .outOfRange :=
+  env_beyond_list_system_rejected_of_source stateGiven chemGiven nspecies nenv cellEnv hs h (Or.inl system_source_checks_env.1)
+
+/-- witness of the finding on a source that does not check: explicit state and chemostats, environment 2 of 2 -/
 example : systemSpaceChecksEnv = false → systemEnvCheck true true 1 2 [0, 2] = .ok () := by
   intro h; simp [systemEnvCheck, h]
 
@@ -423,9 +444,9 @@ theorem graph_coords_rejected (n : Nat) (x y z : Int) :
 
 /-- FULL STATEMENT (every positional accessor refuses a position outside the space):
     `(sp.cellIndex p).isError → (sp.accessorCheck a p).isError` for every accessor `a`.
-Proved for the accessors whose source calls `get_cell_index` / `is_within_bounds` on the position; on the pinned tree
-`RDGridSpace.get_cell_vol` does not (known findings `position:grid:*:get_cell_vol`). -/
-theorem accessor_rejects_outside_partial (sp : Space) (a : String) (p : Pos)
+Lemma for the accessors whose source calls `get_cell_index` / `is_within_bounds` on the position (before repository
+fix 052c0f5 `RDGridSpace.get_cell_vol` did not); the full theorem `accessor_rejects_outside` follows it. -/
+theorem accessor_rejects_outside_of_source (sp : Space) (a : String) (p : Pos)
     (hg : (match sp with | .grid _ => gridAccessorGuards | .graph _ => graphAccessorGuards).lookup a = some true)
     (h : (sp.cellIndex p).isError = true) : (sp.accessorCheck a p).isError = true := by
   unfold Space.accessorCheck
@@ -433,12 +454,22 @@ theorem accessor_rejects_outside_partial (sp : Space) (a : String) (p : Pos)
   | ok i => rw [hc] at h; simp [Res.isError] at h
   | error e => cases sp <;> simp only [] at hg <;> simp [hg, Res.isError]
 
-/-- which accessors the pinned source guards (everything but the grid's `get_cell_vol`) -/
+/-- every positional accessor of both space classes checks its position (the grid's `get_cell_vol` since
+repository fix 052c0f5) -/
 theorem guarded_accessors :
-    (∀ a ∈ ["get_cell_env", "get_neighbors", "are_neighbors", "get_cell_coordinates", "get_cell_index"],
+    (∀ a ∈ ["get_cell_env", "get_cell_vol", "get_neighbors", "are_neighbors", "get_cell_coordinates", "get_cell_index"],
       gridAccessorGuards.lookup a = some true) ∧
     (∀ a ∈ ["get_cell_env", "get_cell_vol", "get_neighbors", "are_neighbors"], graphAccessorGuards.lookup a = some true) := by
   decide +kernel
+
+/-- every positional accessor refuses a position outside the space -/
+theorem accessor_rejects_outside (sp : Space) (a : String) (p : Pos)
+    (ha : a ∈ ["get_cell_env", "get_cell_vol", "get_neighbors", "are_neighbors"])
+    (h : (sp.cellIndex p).isError = true) : (sp.accessorCheck a p).isError = true := by
+  apply accessor_rejects_outside_of_source sp a p _ h
+  cases sp with
+  | grid g => exact guarded_accessors.1 a (by simp only [List.mem_cons] at ha ⊢; tauto)
+  | graph n => exact guarded_accessors.2 a ha
 
 theorem species_index_test (n i : Int) : speciesIndexOk n i = true ↔ 0 ≤ i ∧ i < n := by simp [speciesIndexOk]
 
